@@ -45,7 +45,8 @@ manifest = {
          "kind_free_text": "symbolic execution of the unmodified Python source with a solver-backed jax model; z3 + cvc5"},
         {"name": "crosshair", "path": "/verif/ch", "serves_properties": ["C02", "C03", "C10", "C16"],
          "kind_free_text": "CrossHair 0.0.110 (symbolic execution of Python with z3): the interpreter's dispatch with a symbolic str "
-                           "(C16), the einsum string generators with symbolic sizes / positions / permutations (C02, C03)"},
+                           "(C16), the einsum string generators with symbolic sizes / positions / permutations (C02, C03), label-level "
+                           "Fock.resize and automatic dimensions with symbolic integers (C10)"},
     ],
     "checks": checks,
     "not_applicable": [{"property_id": k, "reason": v} for k, v in sorted(meta["not_applicable"].items())],
